@@ -8,7 +8,7 @@ from common import cerberus, cerrors, real_error, canon_error, canon_errors
 from gen import Gen
 
 LEVEL = "proof"
-COQ_FILES = ["theories/Model/Tree.v", "theories/Proofs/TreeProofs.v", "theories/Properties/C11.v"]
+COQ_FILES = ['theories/Model/Tree.v', 'theories/Proofs/TreeProofs.v', 'theories/Proofs/PathProofs.v', 'theories/Properties/C11.v']
 FACT_GROUPS = ["F8"]
 ALLOWED_AXIOMS = []
 TRUSTED_BASE = [
